@@ -823,12 +823,13 @@ impl<'a, 'ast> Visit<'ast> for FnScan<'a> {
 struct Emitter {
     out: String,
     line: usize,
-    linemap: Vec<(usize, String, usize)>, // (gen line start, origin file ("S:rel" / "O:overlay" / "G"), origin line)
+    linemap: Vec<(usize, String, usize, usize)>, // (gen line start, origin file ("S:rel" / "O:overlay" / "G"), origin line, gen column (1-based, in chars) where the chunk starts)
 }
 
 impl Emitter {
     fn push(&mut self, text: &str, origin: &str, oline: usize) {
-        self.linemap.push((self.line, origin.to_string(), oline));
+        let col = match self.out.rfind('\n') { Some(p) => self.out[p + 1..].chars().count() + 1, None => self.out.chars().count() + 1 };
+        self.linemap.push((self.line, origin.to_string(), oline, col));
         self.out.push_str(text);
         self.line += text.matches('\n').count();
     }
@@ -1680,7 +1681,7 @@ fn main() {
     em.push("fn main() {}\n", "G", 0);
 
     std::fs::write(&outp, &em.out).unwrap_or_else(|e| die(2, &format!("cannot write {}: {}", outp, e)));
-    let lm: Vec<String> = em.linemap.iter().map(|(g, o, l)| format!("[{},{},{}]", g, jesc(o), l)).collect();
+    let lm: Vec<String> = em.linemap.iter().map(|(g, o, l, c)| format!("[{},{},{},{}]", g, jesc(o), l, c)).collect();
     let rep = format!(
         "{{\"unit\":{},\"overlay\":{},\"items\":[\n{}\n],\"rewrites\":[\n{}\n],\"linemap\":[{}]}}\n",
         jesc(&unit), jesc(&overlay_path), item_log.join(",\n"), rw_log.join(",\n"), lm.join(",")
